@@ -106,14 +106,17 @@ def svc_garbage(d, svc, n):
     w.run()
     rs = replies(peer)
     mine = [x for x in rs if x["invoke"] == inv and x["type"] in REPLY_TYPES]
-    reserved = maxresp > 5          # reserved max-APDU code: whether "exactly one reply" applies is arguable,
-    if not reserved:                # the health clause below applies regardless
+    reserved = maxresp > 5          # reserved max-APDU code: the header is complete and names the invoke ID, the request
+    if not reserved:                # cannot be served (no size to answer within) - it is refused once, not met with silence
         if len(mine) != 1 or len(rs) != 1:
             errs = [e[1] for e in d.errors_logged()]
             d.flag(True, "not-exactly-one-reply", n=len(mine), service=choice, params=params, logged=errs,
                    registered=svc is not None)
-    elif len(rs) > 1:
-        raise Violation("more-than-one-reply", n=len(rs))
+    else:
+        refusals = [x for x in mine if x["type"] in (6, 7)]
+        if len(refusals) != 1 or len(rs) != 1:
+            d.flag(True, "reserved-max-apdu-not-refused-once", n=len(refusals), replies=len(rs), service=choice,
+                   logged=[e[1] for e in d.errors_logged()])
     if svc is None and not reserved:
         for x in mine:
             if not (x["type"] == 6 and x["reason"] == 9):
